@@ -146,17 +146,21 @@ func (mw *Middleware) Wrap(next dnsserver.Handler) (wrapped dnsserver.Handler) {
 		ri := mw.newRequestInfo(ctx, req, rw.LocalAddr(), raddr)
 		defer mw.pool.Put(ri)
 
+		ri.Location, ri.ECS = loc, ecs
+
+		// Check the access before handling the device result, since a
+		// device-finder error is returned to the server, which responds with a
+		// SERVFAIL, and blocked clients must not receive any response.  There
+		// is no profile in that case, so only the global access applies.
+		if mw.isBlockedByAccess(ctx, ri, req, raddr) {
+			return nil
+		}
+
 		cont, err := mw.handleDeviceResult(ctx, ri.DeviceResult)
 		if !cont {
 			// Don't wrap the error, because this is the main flow, and there is
 			// already [errors.Annotate] here.
 			return err
-		}
-
-		ri.Location, ri.ECS = loc, ecs
-
-		if mw.isBlockedByAccess(ctx, ri, req, raddr) {
-			return nil
 		}
 
 		if locErr != nil {
